@@ -1188,6 +1188,42 @@ pub mod collections {
     use super::vec::Vec;
     use core::borrow::Borrow;
 
+    /// Progress fuel for termination harnesses: every `pop_front` of a deque burns one unit once a harness has set a budget.
+    /// A scanner loop that stops consuming its input (push-back without progress) exhausts it, which turns a would-be hang into an
+    /// ordinary assertion failure with a counterexample trace (Kani's playback does not emit values for unwinding assertions).
+    pub static mut FUEL: isize = -1;
+    pub fn set_fuel(n: usize) {
+        unsafe { FUEL = n as isize }
+    }
+    #[inline]
+    fn burn() {
+        unsafe {
+            if FUEL >= 0 {
+                if FUEL == 0 {
+                    fuel_exhausted();
+                }
+                FUEL -= 1;
+            }
+        }
+    }
+    #[cfg(kani)]
+    fn fuel_exhausted() -> ! {
+        kani::assert(false, "VSHIM-FUEL: the scanner keeps popping characters without making progress (it does not terminate)");
+        kani::assume(false);
+        unsafe { core::hint::unreachable_unchecked() }
+    }
+    #[cfg(not(kani))]
+    fn fuel_exhausted() -> ! {
+        if std::env::var_os("VK_NO_FUEL").is_some() {
+            // replay without the budget: let the real loop run (the runner's watchdog then observes the hang itself)
+            unsafe { FUEL = -1 };
+            loop {
+                std::thread::sleep(std::time::Duration::from_secs(3600));
+            }
+        }
+        panic!("VSHIM-FUEL: the scanner keeps popping characters without making progress (it does not terminate)");
+    }
+
     /// Deque with the front at the END of a bounded Vec (pop_front = pop).
     pub struct VecDeque<T> {
         v: Vec<T, DEQ>,
@@ -1212,6 +1248,7 @@ pub mod collections {
             self.v.as_slice().first()
         }
         pub fn pop_front(&mut self) -> Option<T> {
+            burn();
             self.v.pop()
         }
         pub fn push_front(&mut self, x: T) {
